@@ -765,10 +765,35 @@ def inline_unknown_helpers(tree, modname):
                     elif isinstance(st, ast.For) and isinstance(st.iter, ast.Call):
                         call = st.iter
                         where = "iter"
-                    if call is None or call.keywords or any(isinstance(a, ast.Starred) for a in call.args):
+                    if call is None or any(k.arg is None for k in call.keywords) or any(isinstance(a, ast.Starred) for a in call.args):
                         i += 1
                         continue
                     fdef, args = callee_of(call, cls)
+                    if fdef is not None and call.keywords:
+                        # keywords bind by name; evaluation order (positionals, then keywords as written) is kept
+                        # because _instantiate evaluates non-trivial arguments in parameter order only if that is the same order
+                        pnames = [a.arg for a in fdef.args.args]
+                        rest = pnames[len(args):]
+                        kw = {k.arg: k.value for k in call.keywords}
+                        if len(kw) != len(call.keywords) or not set(kw) <= set(rest):
+                            i += 1
+                            continue
+                        in_order = [k.arg for k in call.keywords] == [p_ for p_ in rest if p_ in kw]
+                        if not in_order and not all(_simple_arg(v_) or not _has_call(v_) for v_ in kw.values()):
+                            i += 1
+                            continue
+                        nd_ = len(fdef.args.defaults)
+                        ok_ = True
+                        for p_ in rest:
+                            if p_ in kw:
+                                args.append(kw[p_])
+                            elif pnames.index(p_) >= len(pnames) - nd_:
+                                args.append(_clone(fdef.args.defaults[pnames.index(p_) - (len(pnames) - nd_)]))
+                            else:
+                                ok_ = False
+                        if not ok_:
+                            i += 1
+                            continue
                     if fdef is None or fdef is fn or (isinstance(call.func, ast.Name) and call.func.id in local_stores):
                         i += 1
                         continue
@@ -801,8 +826,32 @@ def inline_unknown_helpers(tree, modname):
                             if not hasattr(sub, "lineno") and isinstance(sub, (ast.expr, ast.stmt)):
                                 ast.copy_location(sub, st)
                     total += 1
+                    fdef._sv_unfolded = getattr(fdef, "_sv_unfolded", 0) + 1
                     changed = True
                     i += len(stmts) + 1
         if not changed:
             break
+    if total:
+        # a helper that was unfolded everywhere and is not referenced any more is dead code: drop it,
+        # so that its statements are not read a second time as if they were another function's
+        for (cls, name), fdef in list(cands.items()):
+            refs = 0
+            for x in ast.walk(tree):
+                if x is fdef:
+                    continue
+                if isinstance(x, ast.Name) and x.id == name and not cls:
+                    refs += 1
+                elif isinstance(x, ast.Attribute) and x.attr == name:
+                    refs += 1
+            inside = {id(y) for y in ast.walk(fdef)}
+            refs -= sum(1 for x in ast.walk(fdef) if x is not fdef and ((isinstance(x, ast.Name) and x.id == name and not cls) or (isinstance(x, ast.Attribute) and x.attr == name)))
+            if refs == 0 and getattr(fdef, "_sv_unfolded", 0):
+                if not cls and fdef in tree.body:
+                    tree.body.remove(fdef)
+                else:
+                    for c_ in tree.body:
+                        if isinstance(c_, ast.ClassDef) and c_.name == cls and fdef in c_.body:
+                            c_.body.remove(fdef)
+                            if not c_.body:
+                                c_.body.append(ast.Pass())
     return total
